@@ -35,7 +35,9 @@ Inductive gty : Type :=
   | GArray (n : nat) (t : gty)
   | GMap (k v : gty)
   | GStruct (fs : list (string * string * gty))      (* field name, `cassandra` tag ("" = none), type; all exported *)
-  | GIface.
+  | GIface                                           (* the literal interface{} *)
+  | GIfaceN (methods : bool).                        (* any OTHER interface type: a defined empty one (type V interface{}, driver.Value; methods =
+                                                        false) or one with methods (fmt.Stringer; true).  No modelled Go type has methods. *)
 
 Inductive gval : Type :=
   | GVLeaf (x : cval)
@@ -80,7 +82,7 @@ Fixpoint gzero (t : gty) : gval :=                                         (* re
   | GMap _ _ => GVNilMap
   | GStruct fs => GVStruct ((fix zs (fs : list (string * string * gty)) : list gval :=
                                match fs with [] => [] | (_, _, ft) :: r => gzero ft :: zs r end) fs)
-  | GIface => GVNilIface
+  | GIface | GIfaceN _ => GVNilIface
   end.
 
 (* ------------------------------------------------------------------------------------------------ PreferredGoType *)
@@ -89,7 +91,7 @@ Definition pref_kind (s : scalar) : lkind := match s with SBlob | SCustom | SIne
 (* reflection.go ensureNillable *)
 Definition ensure_nillable (t : gty) : gty :=
   match t with
-  | GIface | GPtr _ | GSlice _ | GMap _ _ | GLeaf _ LSlice => t
+  | GIface | GIfaceN _ | GPtr _ | GSlice _ | GMap _ _ | GLeaf _ LSlice => t
   | _ => GPtr t
   end.
 (* reflect.Type.Comparable, on the types ensureNillable can return *)
@@ -122,19 +124,30 @@ Fixpoint eq_fold (a b : string) : bool :=
 Fixpoint bytes_of_string (s : string) : list Z :=
   match s with EmptyString => [] | String c r => Z.of_nat (nat_of_ascii c) :: bytes_of_string r end.
 
-(* locateFieldByName: the first field whose name folds to [name] or whose tag is [name] *)
-Fixpoint locate_by_name (fs : list (string * string * gty)) (name : string) (i : nat) : option (nat * gty) :=
+(* locateFieldByName (fix 86b2b2c: a `cassandra` tag takes precedence): a field with a non-empty tag matches by its tag only, exactly;
+   a field without tag (or with the empty tag) matches by its Go name with case folding.  The first tag match wins over any name
+   match wherever it is declared; otherwise the first name match.  (Before the fix: the first field whose name folds to [name] OR
+   whose tag is [name] - a tagged field was still found under its Go name, and every untagged field matched the empty name.) *)
+Definition has_tag (tag : string) : bool := negb (String.eqb tag "").
+Fixpoint locate_tag (fs : list (string * string * gty)) (name : string) (i : nat) : option (nat * gty) :=
   match fs with
   | [] => None
-  | (fname, tag, ft) :: r => if eq_fold name fname || String.eqb tag name then Some (i, ft) else locate_by_name r name (S i)
+  | (_, tag, ft) :: r => if has_tag tag && String.eqb tag name then Some (i, ft) else locate_tag r name (S i)
   end.
+Fixpoint locate_name (fs : list (string * string * gty)) (name : string) (i : nat) : option (nat * gty) :=
+  match fs with
+  | [] => None
+  | (fname, tag, ft) :: r => if negb (has_tag tag) && eq_fold name fname then Some (i, ft) else locate_name r name (S i)
+  end.
+Definition locate_by_name (fs : list (string * string * gty)) (name : string) (i : nat) : option (nat * gty) :=
+  match locate_tag fs name i with Some p => Some p | None => locate_name fs name i end.
 
 (* ------------------------------------------------------------------------------------------------ sources *)
 (* Value.Index(i).Interface() / Field(i).Interface() / MapIndex(k).Interface(): the dynamic type and value handed to the element codec *)
 Definition elem_src (et : gty) (g : gval) : gsrc :=
   match et, g with
-  | GIface, GVNilIface => None
-  | GIface, GVIface dt x => Some (dt, x)
+  | GIface, GVNilIface | GIfaceN _, GVNilIface => None
+  | GIface, GVIface dt x | GIfaceN _, GVIface dt x => Some (dt, x)
   | _, _ => Some (et, g)
   end.
 
@@ -383,7 +396,7 @@ Definition map_entries (d : gval) : list (gval * gval) := match d with GVMap kvs
 Fixpoint ty_comparable (t : gty) : bool :=
   match t with
   | GLeaf _ LSlice | GSlice _ | GMap _ _ => false
-  | GLeaf _ LVal | GPtr _ | GIface => true
+  | GLeaf _ LVal | GPtr _ | GIface | GIfaceN _ => true
   | GArray _ e => ty_comparable e
   | GStruct fs => (fix all (fs : list (string * string * gty)) : bool :=
                      match fs with [] => true | (_, _, ft) :: r => ty_comparable ft && all r end) fs
@@ -454,7 +467,8 @@ Section Decode.
         | GArray n et =>
             if wasNull then OK (true, gzero gt)
             else r <-! body et; if Z.of_nat n <? fst r then ERR else OK (false, GVArray (snd r ++ skipn (List.length (snd r)) (arr_elems d)))
-        | GIface =>
+        | GIfaceN true => if wasNull then OK (true, GVNilIface) else ERR   (* preferred type not assignable: ErrDestinationTypeNotSupported (fix e96a38f) *)
+        | GIface | GIfaceN false =>
             if wasNull then OK (true, GVNilIface)
             else let et := ensure_nillable (pref e) in r <-! body et; OK (false, GVIface (GSlice et) (GVSlice (snd r)))
         | _ => ERR                                                          (* ErrDestinationTypeNotSupported *)
@@ -470,7 +484,8 @@ Section Decode.
                then OK (fold_left (fun m kw => map_set m (fst kw) (snd kw)) kvs old) else ERR in
         match gt with
         | GMap kt vt => if wasNull then OK (true, GVNilMap) else m <-! body kt vt (map_entries d); OK (false, GVMap m)   (* adjustMapSize keeps a non-nil map *)
-        | GIface =>
+        | GIfaceN true => if wasNull then OK (true, GVNilIface) else ERR   (* preferred type not assignable: ErrDestinationTypeNotSupported (fix e96a38f) *)
+        | GIface | GIfaceN false =>
             if wasNull then OK (true, GVNilIface)
             else match pref t with
                  | GMap kt vt => m <-! body kt vt []; OK (false, GVIface (GMap kt vt) (GVMap m))
@@ -488,7 +503,8 @@ Section Decode.
         | GArray m et =>
             if wasNull then OK (true, gzero gt)
             else ys <-! fields false fs (repeat et m) (src_bytes src); OK (false, GVArray (ys ++ skipn n (arr_elems d)))
-        | GIface => if wasNull then OK (true, GVNilIface)
+        | GIfaceN true => if wasNull then OK (true, GVNilIface) else ERR   (* preferred type not assignable: ErrDestinationTypeNotSupported (fix e96a38f) *)
+        | GIface | GIfaceN false => if wasNull then OK (true, GVNilIface)
                     else ys <-! fields false fs (repeat GIface n) (src_bytes src); OK (false, GVIface (GSlice GIface) (GVSlice ys))
         | _ => ERR
         end
@@ -512,7 +528,8 @@ Section Decode.
         | GArray m et =>
             if wasNull then OK (true, gzero gt)
             else ys <-! fields true fs (repeat et m) (src_bytes src); OK (false, GVArray (ys ++ skipn n (arr_elems d)))
-        | GIface =>
+        | GIfaceN true => if wasNull then OK (true, GVNilIface) else ERR   (* preferred type not assignable: ErrDestinationTypeNotSupported (fix e96a38f) *)
+        | GIface | GIfaceN false =>
             if wasNull then OK (true, GVNilIface)
             else ys <-! fields true fs (repeat GIface n) (src_bytes src);
                  OK (false, GVIface (GMap string_ty GIface) (GVMap (fold_left (fun m ny => map_set m (name_key (fst ny)) (snd ny)) (combine names ys) [])))
